@@ -3,22 +3,24 @@
    cache_cleanup, basis_dir_cleanup; and the shape-dependent raising points
    of linbasex_transform_full / _beta_solve that follow.
 
-   The keys are modelled as the code builds them — as STRINGS:
-     los = ''.join(map(str, legendre_orders))
-     pas = ''.join(map(str, (np.array(proj_angles)*100/np.pi).astype(int)))
-   and the memory test additionally asks _basis.shape == (2*cols, cols+1).
-   An angle is a natural number a standing for a*pi/400 (quarter per cent of
-   pi), so its key digit string is dec (a / 4); the harness only uses a = 0
-   or a mod 4 <> 0 so that the float truncation is unambiguous.
+   Since fix d879963 the keys are unambiguous strings:
+     los = '-'.join(map(str, legendre_orders))
+     pas = '-'.join(repr(float(a)) for a in proj_angles)
+   (both injective), so the model keeps the lists themselves as key.  The
+   memory test additionally asks _basis.shape == (2*cols, cols+1) — it does
+   NOT compare the image size itself (see `hazard`).
+   An angle is a natural number a standing for a*pi/400.
 
    Symbolic content of a basis: exactly the parameters it was generated for
    (_bs_linbasex), with its shape (proj*cols) x (pol*NP),
    NP = max 0 (ceil((cols/2+1)/radial_step) - clip).
 
-   Order of assignments in get_bs_cached: _los, _pas, _radial_step, _clip are
-   assigned BEFORE the file is loaded / the basis is generated, _basis after;
-   np.load is not guarded.  No proofs here. *)
-From Coq Require Import List Arith Bool NArith.
+   Order of assignments in get_bs_cached (since fix 0e05e8d): `remember(basis)`
+   assigns _basis and the four key globals together, after np.load succeeded
+   and the loaded shape was found to be the expected one (7ce4ac5), or after
+   the basis was generated; a raising (unguarded) np.load leaves the cache
+   untouched.  No proofs here. *)
+From Coq Require Import List Arith Bool.
 From PA Require Import base.Npy model.CacheCommon.
 Import ListNotations.
 
@@ -35,12 +37,8 @@ Definition ideal (cols : nat) (orders angles : list nat) (step clip : nat) : lco
      l_rows := length angles * cols; l_ncols := length orders * np_count cols step clip;
      l_junk := false |}.
 
-(* the key strings *)
+(* the key: the exact lists (the strings built from them are injective) *)
 Definition str := list nat.
-Definition dec_nat (n : nat) : str := map N.to_nat (dec n).
-Definition los_of (orders : list nat) : str := flat_map dec_nat orders.
-Definition pas_of (angles : list nat) : str := flat_map (fun a => dec_nat (a / 4)) angles.
-
 Definition str_eqb (a b : str) : bool := if list_eq_dec Nat.eq_dec a b then true else false.
 
 Record key := { k_los : str; k_pas : str; k_step : nat; k_clip : nat }.
@@ -49,7 +47,7 @@ Definition key_eqb (a b : key) : bool :=
   (k_step a =? k_step b) && (k_clip a =? k_clip b).
 
 Definition key_of (orders angles : list nat) (step clip : nat) : key :=
-  {| k_los := los_of orders; k_pas := pas_of angles; k_step := step; k_clip := clip |}.
+  {| k_los := orders; k_pas := angles; k_step := step; k_clip := clip |}.
 
 (* linbasex_basis_<cols>_<los>_<pas>_<step>_<clip>.npy *)
 Definition fkey := (nat * key)%type.
@@ -70,10 +68,6 @@ Inductive op :=
   | SetDir (bd : bdarg)
   | Seed (d : nat) (k : fkey) (c : fstate lcont)
   | Remove (d : nat) (k : fkey).
-
-Definition junk (cols : nat) : lcont :=
-  {| l_cols := cols; l_orders := []; l_angles := []; l_step := 0; l_clip := 0;
-     l_rows := 2 * cols; l_ncols := 6; l_junk := true |}.
 
 Definition mem_hit (s : st) (cols : nat) (k : key) : option lcont :=
   match basis s, kprm s with
@@ -103,24 +97,29 @@ Definition step_call (s : st) (cols : nat) (orders angles : list nat) (step clip
   match mem_hit s cols k with
   | Some c => use s c cols pol proj
   | None =>
-      (* _los = los; _pas = pas; _radial_step = ...; _clip = ... *)
       let (g, dir) := resolve (gdir s) bd in
-      let gen (d : disk fkey lcont) := ideal cols orders angles step clip in
+      let want := ideal cols orders angles step clip in
+      (* remember(_bs_linbasex(...)); then save *)
+      let generate (di : option nat) :=
+        match di with
+        | Some d =>
+            if dir_writable d
+            then use (mk (Some want) (Some k) g (put_file fkey_eqb d (cols, k) (FGood want) (dk s))) want cols pol proj
+            else (mk (Some want) (Some k) g (dk s), Raise EOther)
+        | None => use (mk (Some want) (Some k) g (dk s)) want cols pol proj
+        end in
       match dir with
       | Some di =>
           match find_file fkey_eqb di (cols, k) (dk s) with
-          | Some (FBad e) => (mk (basis s) (Some k) g (dk s), Raise (load_exc e))
-          | Some FShape => use (mk (Some (junk cols)) (Some k) g (dk s)) (junk cols) cols pol proj
-          | Some (FGood c) => use (mk (Some c) (Some k) g (dk s)) c cols pol proj
-          | None =>
-              let c := ideal cols orders angles step clip in
-              if dir_writable di
-              then use (mk (Some c) (Some k) g (put_file fkey_eqb di (cols, k) (FGood c) (dk s))) c cols pol proj
-              else (mk (Some c) (Some k) g (dk s), Raise EOther)
+          | Some (FBad e) => (mk (basis s) (kprm s) g (dk s), Raise (load_exc e))
+          | Some FShape => generate dir                    (* "Cached basis file incompatible." *)
+          | Some (FGood c) =>
+              if (l_rows c =? proj * cols) && (l_ncols c =? pol * np_count cols step clip)
+              then use (mk (Some c) (Some k) g (dk s)) c cols pol proj
+              else generate dir
+          | None => generate dir
           end
-      | None =>
-          let c := ideal cols orders angles step clip in
-          use (mk (Some c) (Some k) g (dk s)) c cols pol proj
+      | None => generate None
       end
   end.
 
@@ -209,36 +208,28 @@ Definition uses_bad_dir (s : st) (bd : bdarg) : bool :=
 Definition lcont_exact (a b : lcont) : bool :=
   l_eqv a b && (l_rows a =? l_rows b) && (l_ncols a =? l_ncols b).
 
-(* the recorded finding: two different parameter sets share a key.  A call is
-   a collision hazard when the memory cache or the file it will use was made
-   for other parameters than the requested ones *)
-Definition collision (s : st) (cols : nat) (orders angles : list nat) (stp clip : nat) (bd : bdarg) : bool :=
-  let want := ideal cols orders angles stp clip in
-  let k := key_of orders angles stp clip in
-  match mem_hit s cols k with
-  | Some c => negb (l_eqv c want)
-  | None =>
-      match snd (resolve (gdir s) bd) with
-      | Some di => match find_file fkey_eqb di (cols, k) (dk s) with
-                   | Some (FGood c) => negb (l_eqv c want)
-                   | _ => false
-                   end
-      | None => false
-      end
+(* assumptions about the environment (writable directories, good files are what
+   a save of their name writes) and ONE remaining exclusion: the memory test
+   compares _basis.shape with (2*cols, cols+1) but not the image size itself,
+   so a cached basis of another image size with the same lists can pass it
+   (needs e.g. 6 angles and 5 orders: (18, 10) for a 3x3 and asked for a 9x9
+   image); the call then raises LinAlgError (finding, see size_test_refuted) *)
+Definition size_confusion (s : st) (cols : nat) (orders angles : list nat) (stp clip : nat) : bool :=
+  match mem_hit s cols (key_of orders angles stp clip) with
+  | Some c => negb (l_cols c =? cols)
+  | None => false
   end.
 
 Definition hazard (s : st) (o : op) : bool :=
   match o with
   | Call cols orders angles stp clip bd =>
-      uses_bad_dir s bd || collision s cols orders angles stp clip bd
+      uses_bad_dir s bd || size_confusion s cols orders angles stp clip
   | Seed d k c =>
       match c with
-      | FShape => true
       | FGood x =>
-          (* an honest file: saved by a call with the parameters of x under x's own name *)
           negb (fkey_eqb k (l_cols x, key_of (l_orders x) (l_angles x) (l_step x) (l_clip x)) &&
                 lcont_exact x (ideal (l_cols x) (l_orders x) (l_angles x) (l_step x) (l_clip x)))
-      | FBad _ => false
+      | _ => false
       end
   | _ => false
   end.
@@ -267,6 +258,13 @@ Fixpoint safe_until_raise (s : st) (ops : list op) : bool :=
                 | Ret _ => out_eqv res (fresh o) && safe_until_raise s' r
                 end
               else safe_until_raise s' r
+  end.
+
+Fixpoint all_safe (s : st) (ops : list op) : bool :=
+  match ops with
+  | [] => true
+  | o :: r => let (s', res) := step s o in
+              (if is_call o then out_eqv res (fresh o) || (0 <? res_code res) else true) && all_safe s' r
   end.
 
 Definition last_result (ops : list op) (c : op) : res lcont := snd (step (run init ops) c).
